@@ -692,7 +692,10 @@ def _pure_expr(e) -> bool:
     subscripts, tuples, and calls of a few query methods of str / dict."""
     for n in ast.walk(e):
         if isinstance(n, ast.Call):
-            if not (isinstance(n.func, ast.Attribute) and n.func.attr in _PURE_METHODS and not n.keywords):
+            # (a capitalised name is a class by the repository's convention: constructing a node / record object from
+            # the loop variables, as the comprehension form of the same loop does)
+            constructs = isinstance(n.func, ast.Name) and n.func.id[:1].isupper() and not n.keywords
+            if not constructs and not (isinstance(n.func, ast.Attribute) and n.func.attr in _PURE_METHODS and not n.keywords):
                 return False
         elif isinstance(n, (ast.Await, ast.Yield, ast.YieldFrom, ast.NamedExpr, ast.Lambda, ast.ListComp, ast.SetComp,
                             ast.DictComp, ast.GeneratorExp, ast.Starred)):
